@@ -196,6 +196,41 @@ func init() {
 		return SV{K: KTuple, Tuple: []SV{Scalar(n), Scalar(e)}}
 	})
 
+	regDep("invoke io.Reader.Read", []string{"BMem", "RPos"}, "r.Read(p): weak stream contract: returns any 0 <= n <= len(p) and any error (n >= 1 and nil error while the source still delivers len(p) bytes); the first n bytes of p are the next n bytes of the stream, the rest of p is unchanged; short reads allowed", func(ex *Exec, st *State, c *ssa.Call, a []SV) SV {
+		r, buf := a[0].T, a[1]
+		ex.safety(st, "nilreader", Not(Eq(r, IntLit(0))), c, "nil io.Reader")
+		pos := ex.define(st, "rpos", Select(st.heap["RPos"], r))
+		n := ex.fresh("read_n", SInt)
+		e := ex.fresh("read_err", SErr)
+		st.assume(And(Le(IntLit(0), n), Le(n, buf.Len)))
+		// a source that still delivers len(p) bytes does not fail and makes progress
+		st.assume(Implies(And(Gt(buf.Len, IntLit(0)), Le(Add(pos, buf.Len), App(SInt, "f_ravail", r))), And(Ge(n, IntLit(1)), Eq(e, T(SErr, "nilErr")))))
+		newContent := ex.fresh("read_buf", SBytes)
+		st.assume(Eq(App(SInt, "f_blen", newContent), buf.Len))
+		st.assume(Implies(Eq(n, buf.Len), Eq(newContent, App(SBytes, "f_rseg", r, pos, buf.Len))))
+		st.assume(Implies(Eq(n, IntLit(0)), Eq(newContent, ex.sliceBytes(st, buf))))
+		ex.writeBytes(st, buf, newContent, c)
+		st.heap["RPos"] = ex.define(st, "RPos", Store(st.heap["RPos"], r, Add(pos, n)))
+		return SV{K: KTuple, Tuple: []SV{Scalar(n), Scalar(e)}}
+	})
+	regDep("io.ReadAtLeast", []string{"BMem", "RPos"}, "io.ReadAtLeast(r, buf, min): requires min <= len(buf) (else returns ErrShortBuffer); returns (n, nil) with min <= n <= len(buf) when the source still delivers >= min bytes, else (n < min, err != nil); only the first n bytes of buf are defined by the stream", func(ex *Exec, st *State, c *ssa.Call, a []SV) SV {
+		r, buf, min := a[0].T, a[1], a[2].T
+		pos := ex.define(st, "rpos", Select(st.heap["RPos"], r))
+		avail := App(SInt, "f_ravail", r)
+		n := ex.fresh("readatleast_n", SInt)
+		e := ex.fresh("readatleast_err", SErr)
+		okc := And(Le(min, buf.Len), Or(Le(min, IntLit(0)), Le(Add(pos, min), avail)))
+		st.assume(And(Le(IntLit(0), n), Le(n, buf.Len)))
+		st.assume(Implies(okc, And(Ge(n, min), Eq(e, T(SErr, "nilErr")))))
+		st.assume(Implies(Not(okc), And(Lt(n, min), Not(Eq(e, T(SErr, "nilErr"))))))
+		newContent := ex.fresh("readatleast_buf", SBytes)
+		st.assume(Eq(App(SInt, "f_blen", newContent), buf.Len))
+		st.assume(Implies(And(okc, Eq(n, buf.Len)), Eq(newContent, App(SBytes, "f_rseg", r, pos, buf.Len))))
+		ex.writeBytes(st, buf, newContent, c)
+		st.heap["RPos"] = ex.define(st, "RPos", Store(st.heap["RPos"], r, Add(pos, n)))
+		return SV{K: KTuple, Tuple: []SV{Scalar(n), Scalar(e)}}
+	})
+
 	// strings
 	regDep("strings.Join", nil, "strings.Join(elems, sep) = join(elems, sep); elems not modified", func(ex *Exec, st *State, c *ssa.Call, a []SV) SV {
 		return Scalar(ex.define(st, "joined", App(SStr, "f_join", ex.sliceSeq(st, a[0]), a[1].T)))
